@@ -154,33 +154,50 @@ def _writes(ctx) -> None:
 
 
 def _table_arith(ctx) -> None:
+    """On the symx event log of _table_elementwise_operation (helpers in line): which name each result column is given."""
+    from ..symx import Interp as SInterp
+    from ..symx import flatten_conds, show, subterms
     prog = ctx.prog
     f = prog.func("table.Table._table_elementwise_operation")
-    loops = [s for s in walk_stmts(f.body) if isinstance(s, ast.For) and isinstance(s.iter, ast.Call) and short(s.iter.func) == "zip"
-             and len(s.iter.args) == 2 and short(s.iter.args[0]) == "self.cols()" and isinstance(s.iter.args[1], ast.Name)]
-    ok = False
-    if len(loops) == 1:
-        a, b = [e.id for e in loops[0].target.elts]
-        ok = any(short(s) == f"{b}._name = {a}._name" for s in loops[0].body)
-        rc = Defs(f).values(loops[0].iter.args[1].id)
-        ok = ok and any(" for _0 in self.cols()" in cshort(v) for v in rc)
-    ctx.ob("d.table-scalar", f, "scalar", ok, "result column i named after source column i", loops[0] if loops else f.node,
+    it = SInterp(prog, f)
+    SELF, OTHER = ("param", f.params[0]), ("param", f.params[1])
+    scols = ("call", ("attr", SELF, "cols"), (), ())
+    ocols = ("call", ("attr", OTHER, "cols"), (), ())
+    is_table = lambda conds, want: any(t[0] == "call" and t[1] == ("name", "isinstance") and t[2] == (OTHER, ("name", "Table")) and pol is want
+                                       for t, pol in flatten_conds(conds))
+    stores = [e for e in it.events if e.kind == "store" and e.term[0] == "attr" and e.term[2] == "_name"]
+    scalar = [e for e in stores if is_table(e.conds, False)]
+    ok = bool(scalar) and all(_names_after_self(it, e, scols) for e in scalar)
+    # ... and the named columns are the per-column results  op_func(col, other)  over all columns of self
+    for e in scalar:
+        tgt = e.term[1]
+        if not (tgt[0] == "elem" and any(x[0] == "call" and x[1] == ("param", f.params[2]) for x in _deep_terms(it, tgt[1]))):
+            ok = False
+    ctx.ob("d.table-scalar", f, "scalar", ok, "result column i named after source column i", scalar[0].node if scalar else f.node,
            message="table (op) scalar no longer copies every source column's stored name onto the result column of the same position")
     # table-table: result name from _resolve_binary_name(left._name, right._name)
-    lp = [s for s in walk_stmts(f.body) if isinstance(s, ast.For) and "zip(self.cols(), other.cols())" in short(s.iter)]
     problems = []
-    if len(lp) != 1:
+    tt = [e for e in stores if is_table(e.conds, True)]
+    if not tt:
         problems.append("column pairing loop not found")
-    else:
-        names = [n.id for n in ast.walk(lp[0].target) if isinstance(n, ast.Name)]
-        l, r = names[-2], names[-1]
-        calls = [s for s in lp[0].body if isinstance(s, ast.Assign) and isinstance(s.value, ast.Call) and short(s.value.func) == "_resolve_binary_name"]
-        if not calls or [short(a) for a in calls[0].value.args] != [f"{l}._name", f"{r}._name"]:
-            problems.append(f"names are resolved by `{short(calls[0].value) if calls else '?'}`, expected _resolve_binary_name({l}._name, {r}._name)")
+    for e in tt:
+        L = e.loops[-1] if e.loops else None
+        lp = it.loops[L] if L is not None else None
+        doms = tuple(lp.domain[1]) if lp is not None and lp.domain is not None and lp.domain[0] == "tuple" else ()
+        if doms[-2:] != (scols, ocols) and doms != (scols, ocols):
+            problems.append(f"columns are paired by `{show(lp.iter, it)[:50] if lp is not None else '?'}`, expected zip(self.cols(), other.cols())")
+            continue
+        l, r = ("elem", scols, L), ("elem", ocols, L)
+        want_call = ("call", ("name", "_resolve_binary_name"), (("attr", l, "_name"), ("attr", r, "_name")), ())
+        v = e.value
+        if v == ("sub", want_call, ("const", "int", 0)):
+            pass
+        elif any(x == want_call for x in subterms(v)):
+            problems.append("the resolved name is not what the result column receives")
         else:
-            rn = calls[0].targets[0].elts[0].id if isinstance(calls[0].targets[0], ast.Tuple) else None
-            if not any(isinstance(s, ast.Assign) and short(s.targets[0]).endswith("._name") and short(s.value) == rn for s in lp[0].body):
-                problems.append("the resolved name is not what the result column receives")
+            calls = [x for x in subterms(v) if x[0] == "call" and x[1] == ("name", "_resolve_binary_name")]
+            problems.append(f"names are resolved by `{show(calls[0], it)[:60] if calls else show(v, it)[:60]}`, expected "
+                            f"_resolve_binary_name(left._name, right._name)")
     ctx.ob("d.table-table", f, "wiring", not problems, "result column name = _resolve_binary_name(left name, right name)", f.node,
            message="; ".join(problems))
     # exact decision table
@@ -202,6 +219,20 @@ def _table_arith(ctx) -> None:
             ctx.ob("d.table-table", g, f"cell:left={a!r},right={b!r}", ok, f"-> {got!r}", g.node,
                    message=f"_resolve_binary_name(left={a!r}, right={b!r}) gives {got!r}; the rule is 'keep the left name only when the "
                            f"right name is absent (None) or equal', i.e. {want!r}")
+
+
+def _deep_terms(it, t, depth=0):
+    """sub-terms of t, looking through the comprehension / tuple() objects it is built from"""
+    from ..symx import subterms
+    for x in subterms(t):
+        yield x
+        if x[0] == "obj" and depth < 4:
+            o = it.objs[x[1]]
+            for i in o.init:
+                yield from _deep_terms(it, i, depth + 1)
+            for e in it.events:
+                if e.kind == "elem" and e.term == x:
+                    yield from _deep_terms(it, e.value, depth + 1)
 
 
 def _deep_calls(it, t, depth=0):
